@@ -54,11 +54,29 @@ impl XmlConverter {
         }
     }
 
+    /// XML documents can only contain these characters, escaped or not.
+    fn check_char(c: char) -> std::result::Result<(), Box<dyn Error>> {
+        match c {
+            '\t'
+            | '\n'
+            | '\r'
+            | '\u{20}'..='\u{D7FF}'
+            | '\u{E000}'..='\u{FFFD}'
+            | '\u{10000}'..='\u{10FFFF}' => Ok(()),
+            _ => Err(BuildError::new(
+                format!("XML can not represent the character U+{:04X}", c as u32),
+                ErrorType::TypeFail,
+            )
+            .to_boxed()),
+        }
+    }
+
     /// Escapes character data. The escaping of the writer is turned off since
     /// it leaves a carriage return as it is, which a parser reads as a line feed.
-    fn escape_text(s: &str) -> String {
+    fn escape_text(s: &str) -> std::result::Result<String, Box<dyn Error>> {
         let mut out = String::with_capacity(s.len());
         for c in s.chars() {
+            Self::check_char(c)?;
             match c {
                 '&' => out.push_str("&amp;"),
                 '<' => out.push_str("&lt;"),
@@ -67,14 +85,15 @@ impl XmlConverter {
                 _ => out.push(c),
             }
         }
-        out
+        Ok(out)
     }
 
     /// Escapes an attribute value. Tabs, line feeds and carriage returns are
     /// written as character references. A parser reads literal ones as spaces.
-    fn escape_attr(s: &str) -> String {
+    fn escape_attr(s: &str) -> std::result::Result<String, Box<dyn Error>> {
         let mut out = String::with_capacity(s.len());
         for c in s.chars() {
+            Self::check_char(c)?;
             match c {
                 '&' => out.push_str("&amp;"),
                 '<' => out.push_str("&lt;"),
@@ -87,7 +106,7 @@ impl XmlConverter {
                 _ => out.push(c),
             }
         }
-        out
+        Ok(out)
     }
 
     fn write_node<W: std::io::Write>(&self, v: &Val, w: &mut EventWriter<W>) -> ConvertResult {
@@ -170,7 +189,7 @@ impl XmlConverter {
                         }
                         attr_vals.push((
                             name.as_ref(),
-                            Self::escape_attr(Self::get_str_val(val.as_ref())?),
+                            Self::escape_attr(Self::get_str_val(val.as_ref())?)?,
                         ));
                     }
                 }
@@ -182,7 +201,7 @@ impl XmlConverter {
                 // declaration when any ancestor, even one that is shadowed by
                 // now, has declared the same namespace.
                 if let Some((prefix, uri)) = ns {
-                    ns_uri = Self::escape_attr(uri);
+                    ns_uri = Self::escape_attr(uri)?;
                     if prefix.is_empty() {
                         if !uri.is_empty() {
                             start = start.attr("xmlns", ns_uri.as_str());
@@ -204,10 +223,10 @@ impl XmlConverter {
                 w.write(XmlEvent::end_element())?;
             }
             if let Some(text) = text {
-                w.write(XmlEvent::characters(&Self::escape_text(text)))?;
+                w.write(XmlEvent::characters(&Self::escape_text(text)?))?;
             }
         } else if let Val::Str(s) = v {
-            w.write(XmlEvent::characters(&Self::escape_text(s.as_ref())))?;
+            w.write(XmlEvent::characters(&Self::escape_text(s.as_ref())?))?;
         } else {
             return Err(BuildError::new(
                 "XML nodes must be a Tuple or a string",
@@ -229,7 +248,17 @@ impl XmlConverter {
                     version = Some(Self::get_str_val(val)?);
                 }
                 if name.as_ref() == "encoding" {
-                    encoding = Some(Self::get_str_val(val)?);
+                    let enc = Self::get_str_val(val)?;
+                    // What we write is always utf-8. Declaring anything else
+                    // would make a parser decode the document wrongly.
+                    if !enc.eq_ignore_ascii_case("utf-8") {
+                        return Err(BuildError::new(
+                            "XML encoding must be UTF-8",
+                            ErrorType::TypeFail,
+                        )
+                        .to_boxed());
+                    }
+                    encoding = Some(enc);
                 }
                 if name.as_ref() == "standalone" {
                     standalone = match val.as_ref() {
